@@ -2332,7 +2332,7 @@ def _sort_inert_runs(stmts: List[ast.stmt]) -> List[ast.stmt]:
     return out
 
 
-def canonical_function(fn: ast.FunctionDef, _nested: bool = False) -> ast.FunctionDef:
+def canonical_function(fn: ast.FunctionDef, _nested: bool = False, rename: bool = True) -> ast.FunctionDef:
     f = fn if _nested else copy.deepcopy(fn)
     f.decorator_list = list(f.decorator_list)
     # nested functions first (they are closed units; the outer passes treat them as opaque statements)
@@ -2379,7 +2379,7 @@ def canonical_function(fn: ast.FunctionDef, _nested: bool = False) -> ast.Functi
     f = _ifexp_polarity(f)
     f = _SortAdditive().visit(f)
     f.body = _drop_tail_return_none(list(f.body)) or [ast.Pass()]
-    if not _nested:
+    if not _nested and rename:
         _alpha_rename(f)
     ast.fix_missing_locations(f)
     return f
